@@ -3,8 +3,10 @@
    tables, with the dict modelled as an insertion-ordered association list under ==.
    hashjoin / hashleftjoin: the probe loop is the nested-loop join in the order of the streamed table, and hashjoin has
    the same multiset of rows as the sort-merge join.  hashantijoin: the as-written loop returns exactly the left rows whose key is == to no right
-   key, in left order (HashAntiFacts.v).  hashrightjoin / hashlookupjoin are tied by the correspondence and judged by the
-   extracted oracles hash_spec_holds / same_table (their theorems are not mechanised). *)
+   key, in left order (HashAntiFacts.v).  hashlookupjoin: the probe loop emits exactly one row per left row, in left order, the left
+   row unchanged followed by the value cells of the row the lookupone dictionary holds for its key (or `missing`).
+   hashrightjoin is tied by the correspondence and judged by the extracted oracles hash_spec_holds / same_table (its
+   theorem is not mechanised). *)
 From Verif Require Import PyVal Rows ComparableGen AsIndicesGen ComparableFacts Sort Basics Dedup Joins Relational HashJoins HashFacts HashAntiFacts JoinRel.
 From Coq Require Import Permutation.
 
@@ -70,6 +72,21 @@ Theorem C07_hashantijoin_is_the_exact_complement : forall (lkey rkey : val) (lhd
     outt = lhdr :: filter (fun lrow => match raw_getkey lkind lrow with Some k => negb (py_in k rkeys) | None => false end) L.
 Proof. exact hashantijoin_model_exact. Qed.
 
+(* hashlookupjoin: one output row per left row, in left order: the left row unchanged, then the value cells of the one right row
+   the lookupone dictionary holds for its key (the first with that key: C07_lookupone_keeps_first), or `missing` per value field *)
+Theorem C07_hashlookupjoin_one_row_per_left_row : forall (lkind rvind : list Z) (missing : val) (rl : pdict val) (L out : list row),
+  hashlookupjoin_loop lkind rvind missing rl L = (out, None) ->
+  length out = length L /\
+  Forall2 (fun lrow o => exists k, raw_getkey lkind lrow = Some k /\
+             o = lrow ++ match pd_get rl k with
+                         | Some (VSeq _ rrow) => rgetv rvind missing rrow
+                         | _ => map (fun _ => missing) rvind
+                         end) L out.
+Proof.
+  intros lkind rvind missing rl L out H. split;
+    [exact (hashlookupjoin_loop_count lkind rvind missing rl L out H)|exact (hashlookupjoin_loop_exact lkind rvind missing rl L out H)].
+Qed.
+
 Open Scope Z_scope.
 Example C07_ex :
   lookup_model (VStr [107]) (Some (VStr [118]))
@@ -83,3 +100,4 @@ Print Assumptions C07_strict_raises_iff_duplicate.
 Print Assumptions C07_hashjoin_is_nested_loop_in_left_order.
 Print Assumptions C07_hashjoin_agrees_with_join.
 Print Assumptions C07_hashantijoin_is_the_exact_complement.
+Print Assumptions C07_hashlookupjoin_one_row_per_left_row.
